@@ -41,7 +41,7 @@ fn examples() -> Vec<(String, Vec<u8>)> {
 /// size of the enumerated truncation space: every cut point of every example, with and without
 /// a newline re-appended
 pub fn truncation_space() -> u64 {
-    SCALING_FAMILIES.len() as u64 + examples().iter().map(|(_, b)| (b.len() as u64 + 1) * 2).sum::<u64>()
+    SCALING_FAMILIES.len() as u64 + parser_enum_cases() + examples().iter().map(|(_, b)| (b.len() as u64 + 1) * 2).sum::<u64>()
 }
 
 /// size of the enumerated single-byte replacement space (thorough tier)
@@ -287,6 +287,59 @@ fn scaling_case(seed: u64, run: u64, k: usize, thorough: bool) -> Case {
     c
 }
 
+/// IR lines of every shape the three run-time parsers accept (what the assembler hands them)
+const IR_SHAPES: [&str; 54] = [
+    "db 9", "db -9", "db [7]", "db [5, 3]", "db \"xy\"", "dw 9", "dw -9", "dw [5]", "dw [513, 2]", "dw \"ab\"", "set 12",
+    "print reg", "print flags", "print mem 0 -> 15", "print mem 5 : 3", "print mem : 7",
+    "mov ax,5", "mov byte [250],7", "mov word [bx,si,4],300", "add al,-3", "int 33", "int 3", "jmp 4", "call 2", "ret 4",
+    "rep movs byte", "shl ax,3", "rol bl,2", "in al,5", "lea ax,word [bx,8]",
+    "sal bl,2", "sar bl,2", "shr bl,2", "ror bl,2", "rcl bl,2", "rcr bl,2", "sal cx,2", "sar cx,2", "shr cx,2", "rol cx,2", "ror cx,2", "rcl cx,2", "rcr cx,2",
+    "shl byte [5],2", "sar word [5],2", "mul bl", "div bl", "idiv bl", "imul bl", "aam", "aad", "xlat", "push 5", "out 5,al",
+];
+
+/// enumerated: every number of every IR shape replaced by every extreme number (identical for all seeds)
+fn enumerated_parser_strings() -> Vec<String> {
+    let mut v = Vec::new();
+    for shape in IR_SHAPES.iter() {
+        // split into digit runs (with a leading '-') and the rest
+        let b: Vec<char> = shape.chars().collect();
+        let mut spans = Vec::new();
+        let mut i = 0;
+        let mut in_str = false;
+        while i < b.len() {
+            if b[i] == '"' {
+                in_str = !in_str;
+            }
+            if !in_str && (b[i].is_ascii_digit() || (b[i] == '-' && i + 1 < b.len() && b[i + 1].is_ascii_digit())) {
+                let st = i;
+                i += 1;
+                while i < b.len() && b[i].is_ascii_digit() {
+                    i += 1;
+                }
+                spans.push((st, i));
+            } else {
+                i += 1;
+            }
+        }
+        for (st, en) in spans {
+            for x in EXTREME_NUMBERS.iter() {
+                let mut t: String = b[..st].iter().collect();
+                t.push_str(x);
+                t.extend(b[en..].iter());
+                v.push(t);
+            }
+        }
+        v.push((*shape).to_owned());
+    }
+    v
+}
+
+const PARSER_ENUM_CHUNK: usize = 40;
+
+pub fn parser_enum_cases() -> u64 {
+    ((enumerated_parser_strings().len() + PARSER_ENUM_CHUNK - 1) / PARSER_ENUM_CHUNK) as u64
+}
+
 pub fn make_case(seed: u64, run: u64, thorough: bool, _stats: &mut Stats) -> Option<Case> {
     // ---- enumerated part 0: the size families, once each (identical for all seeds)
     if (run as usize) < SCALING_FAMILIES.len() {
@@ -295,6 +348,20 @@ pub fn make_case(seed: u64, run: u64, thorough: bool, _stats: &mut Stats) -> Opt
     let run_orig = run;
     let run = run - SCALING_FAMILIES.len() as u64;
     let _ = run_orig;
+    // ---- enumerated part 0b: extreme numbers in every IR shape, straight to the parsers
+    let npe = parser_enum_cases();
+    if run < npe {
+        let all = enumerated_parser_strings();
+        let from = run as usize * PARSER_ENUM_CHUNK;
+        let mut scn = Scenario::new(b"start:\nhlt\n");
+        scn.fuel = 100;
+        let mut c = Case::new("C15", "parser", seed, run_orig, scn);
+        c.config = "enumerated_parser_strings".to_owned();
+        c.faults = vec!["ir_extreme_numbers".to_owned()];
+        c.parser_inputs = all[from..(from + PARSER_ENUM_CHUNK).min(all.len())].to_vec();
+        return Some(c);
+    }
+    let run = run - npe;
     let ex = examples();
     // ---- enumerated part 1: truncation points (identical for all seeds)
     let mut i = run;
@@ -570,8 +637,8 @@ pub fn make_case(seed: u64, run: u64, thorough: bool, _stats: &mut Stats) -> Opt
     Some(c)
 }
 
-const EXTREME_NUMBERS: [&str; 18] = [
-    "0", "-0", "00000000000000000000000000000007", "255", "256", "-129", "65535", "65536", "-32769", "1048575", "1048576",
+const EXTREME_NUMBERS: [&str; 31] = [
+    "0", "-0", "1", "7", "8", "9", "16", "17", "00000000000000000000000000000007", "127", "128", "-128", "255", "256", "-129", "32767", "32768", "-32768", "65535", "65536", "-32769", "-65535", "1048575", "1048576",
     "4294967296", "18446744073709551616", "99999999999999999999999999999999999999", "0x", "0xFFFFFFFFFFFFFFFFF", "0b", "0b2",
 ];
 
@@ -599,7 +666,7 @@ fn parser_case(seed: u64, run: u64, r: &mut Rng, thorough: bool) -> Option<Case>
             ir.extend(out.data.iter().cloned());
         }
     }
-    ir.extend(["print mem 0 -> 15", "print mem 5 : 3", "print mem : 7", "print reg", "print flags", "db [5, 3]", "dw \"ab\"", "set 12", "rep movs byte", "int 33"].iter().map(|s| s.to_string()));
+    ir.extend(["print mem 0 -> 15", "print mem 5 : 3", "print mem : 7", "print reg", "print flags", "db [5, 3]", "dw [5]", "dw [513, 2]", "db [7]", "dw 9", "db 9", "db \"xy\"", "dw \"ab\"", "set 12", "rep movs byte", "int 33"].iter().map(|s| s.to_string()));
     let mut inputs: Vec<String> = Vec::new();
     let n = if thorough { 60 } else { 30 };
     for _ in 0..n {
